@@ -529,7 +529,11 @@ def tasks():
     from . import c12
     for t in c12.tasks():
         if t.contract.target.endswith(("DilatedConnectionProtocol.dataReceived", "DilatedConnectionProtocol.connectionLost",
-                                       "_Record.add_and_unframe")):
+                                       "_Record.add_and_unframe",
+                                       # a correctly keyed link must get through its prologue under any fragmentation, or no
+                                       # generation ever converges: the framer's handshake matching belongs here as well
+                                       "_Framer._get_expected", "_Framer.parse_prologue", "_Framer.parse_relay_ok",
+                                       "_Framer.add_and_parse")):
             out.append(t)
     # noticing a lost connection (the precondition of any re-convergence) rests on the Leader's timer discipline:
     # C16's timer tasks are run here too, so that a change which wedges the timer fails this check as well
